@@ -198,6 +198,17 @@ static void w2(uint64_t i, vf::Rng& r) {
         ticket(t);
         eqs[t] = (cs == ct) && !(cs != ct) && cs.AtPointer(jp) != nullptr && cs.AtPointer("member1") != nullptr && cs.AtPointer("nope") == nullptr;
         ticket(t);
+        // a private deep copy taken from the shared document while the others read it
+        {
+          su::PoolDoc mine;
+          mine.CopyFrom(cs, mine.GetAllocator());
+          if (!(mine == cs) || mine.Dump() != dumps[t]) eqs[t] = 0;
+          // and on-demand extraction from the shared text
+          StringView target;
+          ParseResult pr = GetOnDemand(StringView(text.data(), text.size()), jp, target);
+          if (pr.Error() != kErrorNone || target.empty()) eqs[t] = 0;
+        }
+        ticket(t);
       }
     });
   for (auto& x : th) x.join();
@@ -205,11 +216,11 @@ static void w2(uint64_t i, vf::Rng& r) {
   uint64_t expect = read_everything(static_cast<const su::PoolNode&>(cs), 0, false);
   std::string expect_dump = cs.Dump();
   c_threads.add(T);
-  account_interleaving(T * 3 * 8);
+  account_interleaving(T * 3 * 9);
   for (unsigned t = 0; t < T; t++) {
     if (got[t] != expect) vf::violation("W2:reader-saw-different-content", "thread " + std::to_string(t));
     if (dumps[t] != expect_dump) vf::violation("W2:reader-serialised-different-text", "thread " + std::to_string(t));
-    if (!eqs[t]) vf::violation("W2:equality-or-pointer-lookup-wrong", "thread " + std::to_string(t));
+    if (!eqs[t]) vf::violation("W2:equality-pointer-lookup-copy-or-on-demand-wrong", "thread " + std::to_string(t));
   }
 }
 
